@@ -38,6 +38,18 @@ Theorem C02_reader_domain : forall text f clk,
 Proof. exact c02_reader_domain. Qed.
 Print Assumptions C02_reader_domain.
 
+(* ach.NewReader first hands the bytes to a character-set decoder (charset.NewReader: input that is not UTF-8 is
+   decoded as windows-1252) and frames what the decoder delivers: whatever that decoder is, the statement holds —
+   it quantifies over all byte strings (the instance of C02_reader_domain at [dec raw]; the correspondence runs the
+   real decoder and the sniffing constructor on texts that are not UTF-8) *)
+Theorem C02_reader_domain_decoded : forall (dec : bytes -> bytes) raw f clk,
+  read_text_valid LT RT AT (dec raw) = Some (f, false) -> wf_utf8 clk = true -> rune_count clk = 4%nat ->
+  let out := write_file_padded LT (stamp clk f) in
+  Forall line_ok94 out /\ (length out mod 10 = 0)%nat
+  /\ (exists k, (k < 10)%nat /\ out = write_file LT (stamp clk f) ++ repeat nines k) /\ grammar_ok out = true.
+Proof. exact c02_reader_domain_decoded. Qed.
+Print Assumptions C02_reader_domain_decoded.
+
 (* the statement literally about write_file_padded LT f (the writer of Codec/Dispatch.v, whose hand model of
    FileCreationTimeField covers non-empty values only) holds under the exact hypothesis that no file header of the
    tree needs the clock; without it it is refuted IN THE MODEL (C02_reader_domain_clockless_refuted below) — the real
